@@ -244,6 +244,59 @@ def mk_case(base_lines, positions, lang, rng, origin, cfg_density):
     return family.Case(b'', lang, cfgd, origin, extra)
 
 
+def lines_inside_tokens(src):
+    """1-based numbers of the lines that start inside a block comment or a multi-line literal (a marker put there is not a marker)"""
+    out = set()
+    line = 1
+    i, n = 0, len(src)
+    state = None
+    while i < n:
+        c = src[i:i + 2]
+        ch = src[i:i + 1]
+        if ch == b'\n':
+            line += 1
+            if state in ('cmt', 'raw', 'verb'):
+                out.add(line)
+            elif state in ('str', 'chr', 'line'):
+                state = None
+            i += 1
+            continue
+        if state is None:
+            if c == b'/*':
+                state = 'cmt'
+                i += 2
+                continue
+            if c == b'//':
+                state = 'line'
+            elif c == b'R"':
+                state = 'raw'
+            elif c == b'@"':
+                state = 'verb'
+                i += 2
+                continue
+            elif ch == b'"':
+                state = 'str'
+            elif ch == b"'":
+                state = 'chr'
+        elif state == 'cmt' and c == b'*/':
+            state = None
+            i += 2
+            continue
+        elif state in ('str', 'chr') and ch == b'\\':
+            i += 2
+            continue
+        elif state == 'str' and ch == b'"':
+            state = None
+        elif state == 'chr' and ch == b"'":
+            state = None
+        elif state == 'verb' and ch == b'"':
+            state = None
+        elif state == 'raw' and c == b')"':
+            state = None
+        i += 1
+    return out
+
+
 def make_strategy():
     from hypothesis import strategies as st
     return st.tuples(gen_c.c_program(max_depth=3, max_funcs=2), st.integers(0, 2 ** 32 - 1))
@@ -279,7 +332,7 @@ def main(ctx):
         rng = random.Random(core.subseed(ctx.useed, 'corpus', i))
         rel, lang = rng.choice(files)
         src = corpus.read(rel)
-        if b'\x00' in src[:2000] or b'INDENT-O' in src or b'asm' in src:
+        if b'\x00' in src[:2000] or b'INDENT-O' in src or b'asm' in src or b'??' in src:      # (trigraphs: "??'" opens a literal for the tokenizer)
             continue
         base = BRK.split(src)
         if base and base[-1] == b'':
@@ -291,7 +344,9 @@ def main(ctx):
                             {'base': [], 'regions': [[0, off, [b.decode('latin-1') for b in base], on, 'block']], 'alt': None})
             cases.append(c)
             continue
-        cand = [k + 1 for k, ln in enumerate(base) if ln.rstrip().endswith((b';', b'}', b'{')) and not ln.lstrip().startswith((b'*', b'/', b'#'))]
+        inside = lines_inside_tokens(src)
+        cand = [k + 1 for k, ln in enumerate(base) if ln.rstrip().endswith((b';', b'}', b'{')) and not ln.lstrip().startswith((b'*', b'/', b'#'))
+                and (k + 1) not in inside and (k + 2) not in inside]
         if not cand:
             continue
         pos = rng.sample(cand, min(len(cand), rng.randint(1, 3)))
